@@ -485,6 +485,7 @@ class Ref:
             env[op.results[0]] = MemRef(f"alloc{k}", t.element_type, max(len(t.shape.data), 1))
             return None
         if n == "memref.dealloc":
+            self.trace.append(Effect("free", V(op.operands[0]).name, []))  # releasing memory is observable (leak otherwise)
             return None
         if n == "test.pureop":
             # pure, deterministic: results are uninterpreted functions of the operands
